@@ -109,6 +109,10 @@ Definition nkey_eqb (x y : nkey) : bool :=
 Fixpoint nlookup (k : nkey) (d : list (nkey * Q)) : option Q :=
   match d with [] => None | (k', v) :: r => if nkey_eqb k k' then Some v else nlookup k r end.
 
+(** [key in d] and [d[key]] of the Python dict (the latter only evaluated under the former) *)
+Definition nmem (k : nkey) (d : list (nkey * Q)) : bool := match nlookup k d with Some _ => true | None => false end.
+Definition nget (k : nkey) (d : list (nkey * Q)) : Q := match nlookup k d with Some v => v | None => 0%Q end.
+
 (** the value the source computes at loop iteration (i, j) *)
 Definition noise_value (d : list (nkey * Q)) (i j : name) : Q :=
   match nlookup (K2 i j) d with
